@@ -282,7 +282,10 @@ SELFTEST_FLIP = {
     "PipelineHooksTrace": ("Hook", lambda e: e.update(b=e["b"] + 1) if e["name"] == "PWrite" else None),
 }
 SELFTEST_DROP = {"ContentPackTrace": "Add", "EntryStoreTrace": "Entry", "EntryOrderTrace": "Entry", "ClusterPipelineTrace": "NewCluster",
-                 "PackagingTrace": ("Loc", lambda e: e["pack"] != "d"), "ViewsTrace": ("Step", lambda e: e["op"] in ("cut", "stream", "into_stream", "to_region", "as_slice")),
+                 "PackagingTrace": {"Fs": ("Fs", lambda e, c: e["kind"] == "file" and any(p_ in ("c1", "c2", "c3") for p_ in e["packs"]) and c is not None
+                                           and c.get("mode") in ("two", "none") and c.get("entry") == "main" and e["path"] != "main"),
+                                    "Loc": ("Loc", lambda e, c: e["pack"] != "d" and c is not None and c.get("mode") in ("two", "none") and c.get("entry") == "main")},
+                 "ViewsTrace": "Src",
                  "IntegrityTrace": None, "AtomicCreateTrace": "Rename", "DecoderTrace": "Buf", "Layout": "Block",
                  "PipelineHooksTrace": ("Hook", lambda e: e["name"] == "PDec")}
 
@@ -308,9 +311,22 @@ def selftest_corrupt(module, events):
                         return evs
     elif mode == "drop" and SELFTEST_DROP.get(module):
         d = SELFTEST_DROP[module]
+        if isinstance(d, dict):         # several ways of dropping: VERIF_SELFTEST=<module>:drop:<which>
+            which = st.split(":")[2] if st.count(":") >= 2 else sorted(d)[0]
+            d = d[which]
         kind, pred = d if isinstance(d, tuple) else (d, lambda e: True)
+        # (the last Config event before each event: some events only matter in some configurations)
+        cfg, last = [], None
+        for e in evs:
+            if e["ev"] == "Config":
+                last = e
+            cfg.append(last)
         for i in order:
-            if evs[i]["ev"] == kind and pred(evs[i]):
+            if pred.__code__.co_argcount == 2:
+                hit = evs[i]["ev"] == kind and pred(evs[i], cfg[i])
+            else:
+                hit = evs[i]["ev"] == kind and pred(evs[i])
+            if hit:
                 log("[selftest] dropped event %d of %s: %s" % (i, module, evs[i]["ev"]))
                 del evs[i]
                 return evs
